@@ -401,12 +401,138 @@ def clause2_ret(ctx, P, cg, own):
     ctx.floor("C15.2 R-RET", 6)
 
 
+def clause3_release_hook(ctx, P, cg, own):
+    """cJSON releases through the hook init_parser() installs, and cjet_free() does not tolerate NULL (it reads the size header in
+    front of the block).  In every function of the bundled cJSON that own code can reach, each call through the deallocate hook
+    has an argument that was found non-NULL on every path to it (the print paths set their buffer to NULL when a regrow fails)."""
+    cf = P.fn("alloc.c:cjet_free")
+    if 0 not in (own.deref_params().get(cf.name) or ()):
+        ctx.ob("C15.1 R-NULL", cf, "release-hook-argument-is-non-null", True, "cjet_free() tolerates NULL")
+        return
+    # the hook table handed to cJSON_InitHooks: {cjet_malloc, cjet_free}
+    ip = P.fn("parse.c:init_parser")
+    installed = False
+    for g in P.globals.values():
+        init = g.get("init")
+        if isinstance(init, list) and init and init[0] == "agg" and g.get("ty", "").endswith("cJSON_Hooks"):
+            installed = installed or ["f", cf.name] in init[1]
+    for i in ip.all_insts():
+        if i.op == "store" and P.strip(ip, i.a[0]) == ["f", cf.name]:
+            installed = True
+    if not ip.calls("cJSON_InitHooks"):
+        raise AnalysisBroken("init_parser no longer installs the cJSON hooks")
+    reach = set()
+    for f in P.own_functions():
+        if f.base != "cJSON.c":
+            reach |= cg.reach(f.name)
+
+    def is_dealloc(g, i):
+        if cg.icall_field(g, i) == ("struct.internal_hooks", 1):
+            return True
+        return P.term(g, i.ind) == ("load", ("cgep", ("global", "global_hooks"), (0, 1)))
+
+    writers = {}     # (struct, field) -> functions with a store into that member
+
+    def writes(key):
+        w = writers.get(key)
+        if w is None:
+            w = set()
+            for h in P.functions.values():
+                for i in h.all_insts():
+                    if i.op == "store":
+                        d = P.term(h, i.a[1])
+                        if d[0] == "field" and (d[2], d[3]) == key:
+                            w.add(h.name)
+            writers[key] = w
+        return w
+
+    def root(t):
+        while t[0] in ("field", "index", "cgep"):
+            t = t[1]
+        return t
+
+    def guarded(g, site, t):
+        """t is found non-NULL on every path to the site, and the finding is still valid there: a value loaded from a member is
+        re-established after every call that is handed the object and can store into that member - unless the path continues on
+        that call's success edge (cJSON's printers fail whenever they gave up the buffer)"""
+        def nonnull(atom, pol, *_):
+            if atom[0] == "cmp" and atom[3] == ("null",) and atom[2] == t:
+                return not Q._poleq(atom, pol)
+            if atom[0] == "truth" and atom[1] == t:
+                return pol
+            return False
+        if not Q.must_pass(P, g, site.block, nonnull):
+            return False
+        if t[0] != "load" or t[1][0] != "field":
+            return True
+        key = (t[1][2], t[1][3])
+        base = root(t[1])
+        for k in g.all_insts():
+            kills = False
+            if k.op == "store" and P.term(g, k.a[1]) == t[1] and P.term(g, k.a[0]) == ("null",):
+                kills = True
+            elif k.op == "call" and k is not site:
+                if any(root(P.term(g, a)) == base and P.term(g, a)[0] != "load" for a in k.a):
+                    tg = cg.targets(g, k) if not k.callee else {k.callee}
+                    kills = any(writes(key) & cg.reach(x) for x in tg)
+            if not kills:
+                continue
+            if k.block == site.block and k.idx < site.idx:
+                return False
+
+            def passes(atom, pol, a_, b_, k=k):
+                if nonnull(atom, pol):
+                    return True
+                if k.op == "call":   # the success edge of the call
+                    if atom[0] == "truth" and atom[1][0] == "call" and atom[1][3] == k.id:
+                        return pol
+                    if atom[0] == "cmp" and atom[2][0] == "call" and atom[2][3] == k.id and atom[3] in (("const", 0), ("null",)):
+                        return not Q._poleq(atom, pol)
+                return False
+            eg = P.edge_graph(g)
+            for n in eg:
+                if n[1] == k.block:
+                    for (sn, atom, pol) in eg[n]:
+                        if atom is not None and passes(atom, pol, n[1], sn[1]):
+                            continue
+                        if sn[1] == site.block or site.block in P.reach_blocks(g, drop=passes, start=sn):
+                            return False
+        return True
+    n = 0
+    bad = []
+
+    def judge(g, site, t, depth):
+        if guarded(g, site, t):
+            return
+        if t[0] == "param" and depth < 3:
+            for c in P.callers_of(g):
+                if c.fn.name in reach and t[1] < len(c.a):
+                    judge(c.fn, c, P.term(c.fn, c.a[t[1]]), depth + 1)
+            return
+        bad.append((g, site, t))
+    for name in sorted(reach):
+        g = P.functions.get(name)
+        if g is None or g.base != "cJSON.c":
+            continue
+        for i in g.all_insts():
+            if i.op == "call" and not i.callee and is_dealloc(g, i):
+                n += 1
+                judge(g, i, P.term(g, i.a[0]), 0)
+    ctx.count("release_hook_sites", n)
+    ctx.ob("C15.1 R-NULL", cf, "release-hook-argument-is-non-null", not bad and n >= 8 and installed,
+           ("%s() hands %s to the release hook at %s without having found it non-NULL: the hook is cjet_free(), which reads the size "
+            "header in front of the block - when an allocation inside the printer fails this is a NULL dereference" %
+            (bad[0][0].srcname, fmt_term(bad[0][2])[:80], bad[0][1].loc)) if bad else
+           "%d reachable release-hook call sites, all null-guarded (installed: %s)" % (n, installed))
+
+
 def run(ctx):
     for cfg in ctx.configs(["default"] if ctx.tier == "quick" else None):
         P, cg = cfg.P, cfg.cg
         own = Own(ctx, P, cg)
         clause1_null(ctx, P, cg, own)
         clause2_ret(ctx, P, cg, own)
+        clause3_release_hook(ctx, P, cg, own)
         c07.clause1_own(ctx, P, cg, own)
         c02.clause1_overwrite(ctx, P, cg)
         c04.clause4_commit(ctx, P, cg)
